@@ -1098,7 +1098,8 @@ Qed.
 Theorem source_set_op_MK s x new : J (fst s) -> MK (fst s) (fst (fst (source_set_op s x new))).
 Proof.
   intros Js. unfold source_set_op. destruct (get_ss (fst s) x) as [y|]; [|now apply MK_fail].
-  destruct (onat_eqb (ss_source y) new); [now apply MK_refl|]. cbn [fst].
+  destruct (onat_eqb (ss_source y) new); [now apply MK_refl|].
+  match goal with |- context[if ?b then (s, RExn XUnknownSource) else _] => destruct b end; [now apply MK_refl|]. cbn [fst].
   set (s1 := match ss_source y with Some _ => fold_left unload_fit_items (ss_fits y) s | None => s end).
   assert (K1 : MK (fst s) (fst s1)).
   { subst s1. destruct (ss_source y); [|now apply MK_refl].
